@@ -24,6 +24,9 @@ type Token struct {
 	Pos   int
 	// InMulti: the input belongs to a layer inside a branch of a multi-cause node
 	InMulti bool
+	// LocalOnly: declared safe by the local formatter of a foreign type only (no encoder carries
+	// it): expected to be retained at the process where the error was created
+	LocalOnly bool
 }
 
 var tokRe = regexp.MustCompile(`T[0-9]+q`)
@@ -116,7 +119,7 @@ func (g *Gen) taint(r *R, acc []Token, inMulti bool) []Token {
 		}
 		g.nextTok++
 		t := fmt.Sprintf("T%dq", g.nextTok)
-		acc = append(acc, Token{t, class, r.Op, pos, inMulti})
+		acc = append(acc, Token{Tok: t, Class: class, Op: r.Op, Pos: pos, InMulti: inMulti})
 		if g.longUnsafe && class == 'U' && !strings.Contains(s, "%") && g.rng.Intn(3) == 0 {
 			// a long unsafe text (several KiB of the token): whatever cuts, caps or windows a
 			// rendering is likely to cut inside it
@@ -366,7 +369,7 @@ func oracleC12(res *Result, c *Case) {
 		res.OracleEvals["C12."+st.Name]++
 		text := all.String()
 		for _, t := range c.Toks {
-			if t.Class != 'S' {
+			if t.Class != 'S' || (t.LocalOnly && st.Name != "local") {
 				continue
 			}
 			res.OracleEvals["C12.token_checks"]++
